@@ -475,6 +475,18 @@ def make_program(geo: Dict[str, Any], cfg_seed: int, identity: bool = False) -> 
         rots[nme] = rot
     ops: List[Dict[str, Any]] = []
     by_name = {b["name"]: b for b in geo["blocks"]}
+    # a curve is declared by every block that owns the edge - or, for some edges, only by the owner
+    # that is added to the mesh first: the later ones then take it over from the edge list
+    rank = {nme: i for i, nme in enumerate(order)}
+    first_owner: Dict[str, str] = {}
+    for nme in names:
+        c = by_name[nme]["corners"]
+        for (u, v) in hexref.EDGES12:
+            key = tuple(sorted((c[u], c[v])))
+            k = key[0] + "|" + key[1]
+            if k in geo["curved"] and (k not in first_owner or rank[nme] < rank[first_owner[k]]):
+                first_owner[k] = nme
+    only_first = {k for k in geo["curved"] if Stream(cfg_seed, "inherit", k).chance(0.35)}
     for nme in names:
         b = by_name[nme]
         corners = hexref.renumber(b["corners"], rots[nme])
@@ -483,6 +495,8 @@ def make_program(geo: Dict[str, Any], cfg_seed: int, identity: bool = False) -> 
             key = tuple(sorted((corners[c1], corners[c2])))
             cv = geo["curved"].get(key[0] + "|" + key[1])
             if cv is None:
+                continue
+            if key[0] + "|" + key[1] in only_first and first_owner.get(key[0] + "|" + key[1]) != nme:
                 continue
             if cv["kind"] == "arc":
                 edges.append({"c1": c1, "c2": c2, "kind": "arc", "data": cv["data"]})
